@@ -89,7 +89,7 @@ let fault_of = function
   | "status_with_data" -> FtStatusWithData | "null_entities" -> FtNullEntities | "nan_data" -> FtNaNData
   | k -> raise (Sexp_error ("fault " ^ k))
 let hard_kind = function
-  | "status_with_data" | "null_entities" | "nan_data" -> false
+  | "status_with_data" | "null_entities" -> false
   | _ -> true
 
 exception Oracle_miss of string
@@ -168,16 +168,7 @@ let handle (x : sexp) : (string * string) list =
       let n = String.length s and m = String.length sub in
       let rec go i = i + m <= n && (String.sub s i m = sub || go (i + 1)) in go 0 in
     let causes (r : run) : string list =
-      let kind_is fid k = (List.find (fun f -> int_of_n f.f_id = fid) fetches).f_kind = k in
-      (if List.exists (fun (_, k) -> k = "nan_data") r.faults then ["nan-accepted"] else [])
-      @ (if List.exists (fun (_, k) -> k = "status_with_data") r.faults then ["status-ignored-with-data"] else [])
-      @ (if List.exists (fun (f, k) -> (k = "count_less" || k = "count_more") && kind_is f FEntity) r.faults then ["entity-count-ignored"] else [])
-      @ ((* a dependant of a failed fetch still sent a request, with a required field rendered as null *)
-         if List.exists (fun (rq : request) ->
-             let others = List.filter (fun (f, _) -> f <> int_of_n rq.rq_fetch) r.faults in
-             List.mem rq.rq_fetch (affected fetches (List.map (fun (f, _) -> n_of_int f) others)) &&
-             List.exists (fun rep -> contains (string_of_bytes rep) ":null") rq.rq_reps) r.reqs
-         then ["nullable-requires-null-sent"] else []) in
+      (if List.exists (fun (_, k) -> k = "status_with_data") r.faults then ["status-ignored-with-data"] else []) in
     let add i (r : run) s d =
       let fl = String.concat "," (List.map (fun (f, k) -> Printf.sprintf "%d:%s" f k) r.faults) in
       res := (s, Printf.sprintf "%s run=%d faults=[%s] causes=[%s] %s" (List.hd (String.split_on_char ' ' d)) i fl
